@@ -51,17 +51,18 @@ def segs(name, data, start, count):
 
 def _open_state(w, f, s, data, pos):
     """segments remain: both sides agree on the running sub-block; the server has every byte sent so far except, after
-    a loss, the segments of this sub-block that followed the gap; _current_block holds this sub-block's segments"""
+    a loss, the segments of this sub-block that followed the gap; _current_block holds this sub-block's segments.
+    Returned as separate conjuncts (one obligation each: small queries)."""
     c, B, r = f["_seqno"], f["_blksize"], s["seq"]
     gap = compare("<", r, c)
     block_start = binop("-", pos, binop("*", c, 7))
-    return And(S.eq(s["phase"], 1), Not(s["finished"]), S.eq(c, s["sent"]), S.eq(B, s["blksize"]),
-               compare(">=", r, 0), compare("<=", r, c), compare("<", c, B), compare("<=", B, 127),
-               compare(">=", s["losses_left"], 0), compare("<=", s["losses_left"], w.pre["losses"]),
-               compare(">=", block_start, 0), seglist_is(f["_current_block"], data, block_start, c),
-               _prefix_or_empty(s["buf"], data, binop("-", pos, binop("*", binop("-", c, r), 7))),
-               Implies(gap, And(S.eq(s["losses_left"], 0),
-                                compare("<", binop("+", block_start, binop("*", B, 7)), data.n))))
+    return {"in-step": And(S.eq(s["phase"], 1), Not(s["finished"]), S.eq(c, s["sent"]), S.eq(B, s["blksize"]),
+                           compare(">=", r, 0), compare("<=", r, c), compare("<", c, B), compare("<=", B, 127),
+                           compare(">=", s["losses_left"], 0), compare("<=", s["losses_left"], w.pre["losses"])),
+            "current-block": And(compare(">=", block_start, 0), seglist_is(f["_current_block"], data, block_start, c)),
+            "server-has-all-but-the-gap": _prefix_or_empty(s["buf"], data, binop("-", pos, binop("*", binop("-", c, r), 7))),
+            "gap-only-once-and-not-in-the-final-sub-block":
+                Implies(gap, And(S.eq(s["losses_left"], 0), compare("<", binop("+", block_start, binop("*", B, 7)), data.n)))}
 
 
 def _inv(interp, fr):
@@ -79,7 +80,7 @@ def _inv(interp, fr):
             # the flag only matters for the CRC (send skips the CRC of retransmitted segments)
             "not-retransmitting": Implies(crc_on, Not(f["_retransmitting"])),
             "done-iff-all-sent": Iff(f["_done"], fin),
-            "open": Implies(Not(fin), _open_state(w, f, s, data, pos)),
+            **{"open:" + k: Implies(Not(fin), v) for k, v in _open_state(w, f, s, data, pos).items()},
             # after the last segment (its acknowledgement already consumed): the server holds all but the last segment,
             # keeps the last segment's seven bytes pending, and waits for the end frame
             "closed": Implies(fin, _final_state(w, f, s, data))}
